@@ -147,17 +147,39 @@ where
         let ast = ast_validation.ast();
         // Check that StorageT is big enough to hold RIdx/PIdx/SIdx/TIdx values; after these
         // checks we can guarantee that things like RIdx(ast.rules.len().as_()) are safe.
-        if ast.rules.len() > num_traits::cast(StorageT::max_value()).unwrap() {
+        //
+        // Besides what the user wrote, we add: a start rule with one production and the end
+        // token; and, if implicit tokens are used, two more rules (one of them with a production
+        // per implicit token plus an empty one) and a reference to the implicit rule after every
+        // token of every production.
+        let implicit_tokens_len = match (ast_validation.yacc_kind(), &ast.implicit_tokens) {
+            (YaccKind::Eco, Some(its)) => Some(its.len()),
+            _ => None,
+        };
+        let (added_rules, added_prods) = match implicit_tokens_len {
+            Some(n) => (3, n + 3),
+            None => (1, 1),
+        };
+        let max: usize = num_traits::cast(StorageT::max_value()).unwrap();
+        if ast.rules.len() + added_rules > max {
             panic!("StorageT is not big enough to store this grammar's rules.");
         }
-        if ast.tokens.len() > num_traits::cast(StorageT::max_value()).unwrap() {
+        if ast.tokens.len() + 1 > max {
             panic!("StorageT is not big enough to store this grammar's tokens.");
         }
-        if ast.prods.len() > num_traits::cast(StorageT::max_value()).unwrap() {
+        if ast.prods.len() + added_prods > max {
             panic!("StorageT is not big enough to store this grammar's productions.");
         }
         for p in &ast.prods {
-            if p.symbols.len() > num_traits::cast(StorageT::max_value()).unwrap() {
+            let implicit_refs = match implicit_tokens_len {
+                Some(_) => p
+                    .symbols
+                    .iter()
+                    .filter(|s| matches!(s, ast::Symbol::Token(_, _)))
+                    .count(),
+                None => 0,
+            };
+            if p.symbols.len() + implicit_refs > max {
                 panic!(
                     "StorageT is not big enough to store the symbols of at least one of this grammar's productions."
                 );
